@@ -72,14 +72,29 @@ def comparator_obligations(ctx, tf, clause):
         # guard structure: the comparison is the test of an `if` whose body constructs the statement
         pm = parent_map(f.node)
         par = pm.get(e)
-        if not isinstance(par, ast.If) or par.test is not e:
+        guard_form = False
+        if isinstance(par, ast.UnaryOp) and isinstance(par.op, ast.Not) and isinstance(pm.get(par), ast.If) and pm[par].test is par \
+                and not pm[par].orelse and pm[par].body and isinstance(pm[par].body[-1], ast.Continue):
+            # `if not frequency >= threshold: continue` followed by the construction: the guard form of the same filter
+            guard = pm[par]
+            blk = next((getattr(pm[guard], fld) for fld in ("body", "orelse") if guard in getattr(pm[guard], fld, [])), None)
+            rest = blk[blk.index(guard) + 1:] if blk else []
+            built_after = [n for s_ in rest for n in ast.walk(s_) if isinstance(n, ast.Call) and (cs := ctx.r.site_of.get(id(n))) is not None
+                           and cs.kind == "ctor" and cs.recv_types is stmt_cls]
+            guard_form = True
+            if len(built_after) != 1 or len(guard.body) != 1:
+                msgs.append("the statements after the guard `%s` do not contain exactly one Statement(...) construction" % norm(par))
+            in_body = built_after
+            par = guard
+        if not guard_form and (not isinstance(par, ast.If) or par.test is not e):
             msgs.append("comparison is not the test of an if statement")
         else:
-            built = [n for n in ast.walk(par) if isinstance(n, ast.Call) and (cs := ctx.r.site_of.get(id(n))) is not None
-                     and cs.kind == "ctor" and cs.recv_types is stmt_cls]
-            in_body = [n for s in par.body for n in ast.walk(s) if n in built]
-            if len(in_body) != 1 or par.orelse:
-                msgs.append("the guarded arm does not contain exactly one Statement(...) construction (or has an else arm)")
+            if not guard_form:
+                built = [n for n in ast.walk(par) if isinstance(n, ast.Call) and (cs := ctx.r.site_of.get(id(n))) is not None
+                         and cs.kind == "ctor" and cs.recv_types is stmt_cls]
+                in_body = [n for s in par.body for n in ast.walk(s) if n in built]
+                if len(in_body) != 1 or par.orelse:
+                    msgs.append("the guarded arm does not contain exactly one Statement(...) construction (or has an else arm)")
             # no other Statement construction in the enclosing loop nest
             # the candidate loop nest: the loop the filter sits in, and outwards as long as a loop is the only statement of the
             # loop around it (the class loop of a caller the nest was written into is not part of it)
@@ -99,7 +114,7 @@ def comparator_obligations(ctx, tf, clause):
                           and cs.kind == "ctor" and cs.recv_types is stmt_cls and n not in in_body]
                 if others:
                     msgs.append("another Statement(...) construction in the same loop nest bypasses the filter (%s)" % f.loc(others[0]))
-                bad = [n for n in ast.walk(top) if isinstance(n, (ast.Break, ast.Continue, ast.Return)) or
+                bad = [n for n in ast.walk(top) if (isinstance(n, (ast.Break, ast.Continue, ast.Return)) and not (guard_form and n is par.body[-1])) or
                        (isinstance(n, ast.If) and n is not par)]
                 if bad:
                     msgs.append("candidate loop nest contains %s at %s: some candidate may never be compared" % (
@@ -107,6 +122,38 @@ def comparator_obligations(ctx, tf, clause):
         obs.append(Ob(clause, "R-CMP", key, f.loc(e), not msgs,
                       "filter `%s` keeps exactly the candidates at or above the threshold" % norm(e) if not msgs else "; ".join(msgs)))
     return obs
+
+
+def _filter_in(test, filter_ids):
+    """(found, negated): the test is a filter comparison, possibly under `not`."""
+    neg = False
+    while isinstance(test, ast.UnaryOp) and isinstance(test.op, ast.Not):
+        test, neg = test.operand, not neg
+    return id(test) in filter_ids, neg
+
+
+def _site_guarded(f, node, filter_ids):
+    """The construction site itself is under a filter: inside the arm of `if <filter>:`, or after a guard
+    `if not <filter>: continue` of the same loop body (the site of another loop nest in the same function is not)."""
+    pm = parent_map(f.node)
+    cur = node
+    while cur in pm:
+        par = pm[cur]
+        if isinstance(par, ast.If):
+            found, neg = _filter_in(par.test, filter_ids)
+            if found and ((not neg and any(cur is s for s in par.body)) or (neg and any(cur is s for s in par.orelse))):
+                return True
+        for field in ("body", "orelse"):
+            blk = getattr(par, field, None)
+            if isinstance(blk, list) and any(cur is s for s in blk):
+                i = [k for k, s in enumerate(blk) if s is cur][0]
+                for prev in blk[:i]:
+                    if isinstance(prev, ast.If) and not prev.orelse and prev.body and isinstance(prev.body[-1], (ast.Continue, ast.Return, ast.Raise)):
+                        found, neg = _filter_in(prev.test, filter_ids)
+                        if found and neg:
+                            return True
+        cur = par
+    return False
 
 
 def every_statement_site_filtered(ctx, tf, clause):
@@ -123,7 +170,7 @@ def every_statement_site_filtered(ctx, tf, clause):
             if "_class_profile_dict" not in txt:
                 continue
             n += 1
-            ok = cs.func.qual in filt_funcs
+            ok = cs.func.qual in filt_funcs and _site_guarded(cs.func, cs.node, {id(e) for e, _ in tf.filters})
             obs.append(Ob(clause, "R-CMP", "R-CMP|candidate-site|%s" % cs.func.short, cs.func.loc(cs.node), ok,
                           "candidate statements built in %s are filtered by the threshold" % cs.func.short if ok else
                           "%s builds candidate statements from the class profile without comparing with the threshold" % cs.func.short))
@@ -138,7 +185,7 @@ def sink_obligations(ctx, tf, clause):
     for test, f, owner in g.tests:
         if g.expr_tainted(test, tf.T):
             inner = [n for n in ast.walk(test) if isinstance(n, ast.Compare) and id(n) in allowed_tests]
-            is_filter_or_range = bool(inner) and (f.qual in tf.validators or any(e is test for e, _ in tf.filters))
+            is_filter_or_range = bool(inner) and (f.qual in tf.validators or _filter_in(test, {id(e) for e, _ in tf.filters})[0])
             if is_filter_or_range:
                 continue
             # memo-guard idiom: a test in shex_graph that only decides whether a stage is (re)launched
